@@ -31,7 +31,7 @@ inductive Fail where
                    -- "invalid character {ch:#x}" (`char::from_u32` = `None`), "continuation chunk … for a layer that
                    -- was not defined", the palette / font / sauce payload decoder, a key that does not parse
   | panic          -- index / slice out of range, `unwrap` on `None`
-  | imageLayer     -- role byte 1: sixel image payload, not modelled
+  | imageLayer     -- (unused since the image branch is modelled; kept so that driver output stays stable)
   | negSize        -- a size field ≥ 2^31 (negative `i32`), not modelled
   deriving DecidableEq, Repr
 
@@ -386,7 +386,12 @@ def decodeLayerMain (bytes : Bytes) : Res Layer :=
   match rdFields r0 with
   | .fail e => .fail e
   | .ok (f, data) =>
-  if f.roleByte = 1 then .fail .imageLayer else
+  if f.roleByte = 1 then
+    -- image layer: `if bytes.len() < o + 16 { FileTooShort }`, four u32 (sixel size and scales), the rest is the
+    -- picture data of `layer.sixels[0]` (not part of the layer observation); no cells are read, flags are applied
+    (if lenLt data 16 then .fail .errCodec else
+     if f.width ≥ 2147483648 ∨ f.height ≥ 2147483648 then .fail .negSize else
+     .ok (decodeFlags (freshLayer title f) f.flags)) else
   if lenLt data f.length then .fail .errLength else          -- `if bytes.len() - o < length`
   if f.width ≥ 2147483648 ∨ f.height ≥ 2147483648 then .fail .negSize else
   match readRows f.width f.height data with
@@ -395,6 +400,7 @@ def decodeLayerMain (bytes : Bytes) : Res Layer :=
 
 /-- a `LAYER_n~k` chunk applied to the already loaded layer `n` -/
 def decodeLayerCont (l : Layer) (bytes : Bytes) : Res Layer :=
+  if l.role = 3 then .ok l else    -- `Role::Image => layer.sixels[0].picture_data.extend(&bytes)`: the layer itself is unchanged
   match readRows l.width (l.height - l.lines.length) bytes with
   | .fail e => .fail e
   | .ok rows => .ok (applyRows l l.lines.length rows)
